@@ -17,7 +17,7 @@ NIGHTLY_JSON_DIR = "/root/.rustup/toolchains/nightly-x86_64-unknown-linux-gnu/sh
 DEFAULT_SEED = 20260924
 N_SLOTS = 16
 N_SIBLING_SLOTS = 4  # slots 0..3 own a second cargo target dir for the sibling project p1
-FORMAT_VERSION = 4  # bump to invalidate memoised snapshots / goldens
+FORMAT_VERSION = 6  # bump to invalidate memoised snapshots / goldens
 
 MASK = (1 << 64) - 1
 
